@@ -205,7 +205,7 @@ def body(ctx, replay=None):
     if replay is not None:
         cases = [replay]
     else:
-        nb, per, npr = (8, 2500, 30) if ctx.tier == "quick" else (32, 16000, 300)
+        nb, per, npr = (16, 4000, 40) if ctx.tier == "quick" else (32, 16000, 300)
         cases = [{"kind": "gen", "seed": ctx.seed * 1009 + i, "histories": per} for i in range(nb)]
         cases += [{"kind": "probe", "seed": ctx.seed * 7919 + j, "in_package": j % 3 == 0} for j in range(npr)]
     ctx.run_cases(cases, eval_case)
